@@ -690,7 +690,7 @@ func TestVerif_C19_churn(t *testing.T) {
 		return
 	}
 
-	verifkit.RapidSetup(160, 6000)
+	verifkit.RapidSetup(48, 4800)
 	rapid.Check(t, func(rt *rapid.T) {
 		c := c19GenChurn().Draw(rt, "case")
 		st := &c19ChurnStats{}
